@@ -31,3 +31,7 @@ mod test {
         PORT.fetch_add(1, Ordering::Relaxed)
     }
 }
+
+#[cfg(all(test, feature = "pendulum_project_ntpd_rs_verif"))]
+#[path = "../../../verif/harness/ntpd/root.rs"]
+mod verif_root;
